@@ -12,7 +12,8 @@
  * Tree, prefix notation, blank separated:
  *   S <n> <tree>*n                      sequence
  *   T <id> <nf> <kind>*nf <body> <handler>
- *                                       try { body } catch (e [in f...]) { handler }; nf = 0: catch-all.
+ *                                       try { body } catch (e [in f...]) { handler }; nf = 0: catch-all;
+ *                                       the kinds of one filter are pairwise distinct (a filter is a set).
  *                                       One real try/catch site per arity (try0..try3); nesting through
  *                                       these is dynamic (real recursion of run()).
  *   X <kind>                            throw(K[kind], ...)
@@ -40,6 +41,9 @@
 #include <errno.h>
 #include <sys/types.h>
 #include <sys/wait.h>
+#ifdef __linux__
+#include <sys/prctl.h>
+#endif
 
 enum { N_SEQ, N_TRY, N_THROW, N_CALL, N_MARK, N_TMPL };
 enum { NKINDS = 5 };
@@ -395,7 +399,10 @@ static void run_forked(Node* root) {
     dup2(po[1], 1); dup2(pe[1], 2);
     close(po[1]); close(pe[1]);
     in_child = 1;
-    alarm(60);                           /* never leave a spinning orphan behind */
+#ifdef __linux__
+    prctl(PR_SET_PDEATHSIG, SIGKILL);    /* never leave a spinning orphan behind */
+#endif
+    alarm(20);                           /* a tree runs in microseconds; this only bounds a livelock */
     run_top(root);
     fflush(stdout);
     _exit(0);
